@@ -15,6 +15,7 @@ import (
 	"go.nanomsg.org/mangos/v3/protocol/xstar"
 	_ "go.nanomsg.org/mangos/v3/transport/inproc"
 	"go.nanomsg.org/mangos/v3/vh/kit"
+	"go.nanomsg.org/mangos/v3/vh/ledger"
 	"go.nanomsg.org/mangos/v3/vh/vt"
 	"go.nanomsg.org/mangos/v3/vz/vexplore"
 	"go.nanomsg.org/mangos/v3/vz/vsched"
@@ -92,6 +93,7 @@ func init() {
 			out = append(out, &vexplore.Scenario{Name: fmt.Sprintf("%s-hub-membership-hist-D%d", k.n, hd), Mode: "hist", Reset: kit.ResetGlobals, Body: func() { hubMembership(k.n, k.c, hd) },
 				NeedCounters: []string{"member-replaced-between-two-messages-of-one-peer", "delivered-to-every-other-member"}})
 		}
+		out = append(out, &vexplore.Scenario{Name: "member-leaves-while-the-hub-is-sending-to-it", Mode: "sched", Bound: b, Reset: kit.ResetGlobals, Body: memberLeavesMidSend})
 		out = append(out, &vexplore.Scenario{Name: "xstar-raw-forward", Mode: "sched", Bound: b, Reset: kit.ResetGlobals, Body: xstarRaw})
 		return out
 	})
@@ -693,6 +695,87 @@ func starStalled() {
 			_ = m.Close()
 		}
 	})
+}
+
+// memberLeavesMidSend: a BUS or STAR hub over inproc with two members that are slow to read (their
+// receive queues hold one message): the hub sends five messages, so that its sender to each member
+// is blocked inside the transport with more queued behind.  Member X closes its socket; member Y
+// then reads everything it is owed.  Under the ownership ledger: no message is released twice,
+// and Y receives messages the hub sent, in order, each at most once - never a message twice or one
+// that took another's place.
+var curLedger *ledger.Ledger
+
+func ledgerStats() *ledger.Ledger { return curLedger }
+
+func memberLeavesMidSend() {
+	c := []ctor{bus.NewSocket, star.NewSocket}[kit.ChooseFree(2)]
+	yq := []int{0, 1, 3}[kit.ChooseFree(3)]
+	curLedger = ledger.Install()
+	hub, err := c()
+	must(err, "NewSocket")
+	must(hub.SetOption(mangos.OptionWriteQLen, 8), "WriteQLen")
+	must(hub.Listen("inproc://c08-leave"), "Listen")
+	var ms []mangos.Socket
+	for i := 0; i < 2; i++ {
+		m, err := c()
+		must(err, "NewSocket")
+		// X (the one that leaves) holds two messages, Y none or three: Y is further behind or ahead
+		must(m.SetOption(mangos.OptionReadQLen, []int{1, yq}[i]), "ReadQLen")
+		must(m.Dial("inproc://c08-leave"), "Dial")
+		kit.Quiesce()
+		ms = append(ms, m)
+	}
+	var sent []string
+	for i := 0; i < 5; i++ {
+		body := fmt.Sprintf("fan-%d-%s", i, strings.Repeat("y", 40))
+		sent = append(sent, body)
+		cl := kit.Start("Send", func() (interface{}, error) { return nil, kit.SendBytes(hub, []byte(body)) })
+		kit.Quiesce()
+		if !cl.Done() || cl.Err != nil {
+			kit.Failf("send-stuck", "hub Send %d done=%v %s", i, cl.Done(), kit.ErrName(cl.Err))
+		}
+	}
+	xc := kit.Start("Close:X", func() (interface{}, error) { return nil, ms[0].Close() })
+	// traffic of the same size goes on while X leaves
+	more := kit.Start("Send-more", func() (interface{}, error) {
+		body := fmt.Sprintf("fan-5-%s", strings.Repeat("y", 40))
+		return nil, kit.SendBytes(hub, []byte(body))
+	})
+	sent = append(sent, fmt.Sprintf("fan-5-%s", strings.Repeat("y", 40)))
+	var got []string
+	for i := 0; i < 7; i++ {
+		rc := kit.Start("Recv:Y", func() (interface{}, error) { b, err := kit.Recv(ms[1]); return string(b), err })
+		kit.Quiesce()
+		if !rc.Done() {
+			break
+		}
+		if rc.Err != nil {
+			kit.Failf("recv", "Y: Recv %s", kit.ErrName(rc.Err))
+		}
+		got = append(got, rc.Val.(string))
+	}
+	if !xc.Done() || !more.Done() {
+		kit.Failf("send-stuck", "Close of X done=%v, hub Send done=%v", xc.Done(), more.Done())
+	}
+	j := 0
+	for _, g := range got {
+		for j < len(sent) && sent[j] != g {
+			j++
+		}
+		if j == len(sent) {
+			kit.Failf("member-got-wrong-message", "member X left while the hub's sender was blocked on it; member Y then received %q, which is not an in-order, duplicate-free selection of what the hub sent (%q)", got, sent)
+		}
+		j++
+	}
+	if len(got) < 5 {
+		kit.Failf("lost", "member Y stayed connected and was read dry, it received %d of the hub's %d messages: %q", len(got), len(sent), got)
+	}
+	kit.Observe("%d frees=%d rel=%d", len(got), ledgerStats().Frees, ledgerStats().Releases)
+	kit.Must("Close", func() {
+		_ = hub.Close()
+		_ = ms[1].Close()
+	})
+	kit.Quiesce()
 }
 
 // onceAfterReconnect: Y listens, X and Z dial it (BUS mesh through Y, or STAR with Y as the hub).
